@@ -393,13 +393,13 @@ func randSeconds(c *C, sb []int64) int64 {
 	case 4: // valid Timestamp range
 		return docMinTimestamp + c.Rand.Int63n(docMaxTimestamp-docMinTimestamp+1)
 	case 5: // around the multiplication-overflow threshold, either sign
-		v := int64(math.MaxInt64/1e9) + int64(c.Rand.Intn(9)) - 4
+		v := int64(maxSecFit) + int64(c.Rand.Intn(9)) - 4
 		if c.Rand.Intn(2) == 0 {
 			v = -v
 		}
 		return v
 	case 6: // beyond the threshold by a few units .. billions
-		v := int64(math.MaxInt64/1e9) + (int64(c.Rand.Uint64()>>1) >> uint(20+c.Rand.Intn(43)))
+		v := int64(maxSecFit) + (int64(c.Rand.Uint64()>>1) >> uint(20+c.Rand.Intn(43)))
 		if c.Rand.Intn(2) == 0 {
 			v = -v
 		}
